@@ -3,4 +3,6 @@
 package rux
 
 // hooks for the conformance harness, see verif_on.go. no-ops without the build tag "verif".
-func verifCacheOp(c *cachedRoutes, op, key string) {}
+func verifCacheOp(c *cachedRoutes, op, key string)                                               {}
+func verifRegistered(r *Router, route *Route)                                                    {}
+func verifMatched(r *Router, method, path string, route *Route, params Params, allowed []string) {}
